@@ -33,9 +33,11 @@ func fdValid(fd int) bool {
 }
 
 type fdObj struct {
-	closeFn func() error
-	fds     []int
-	live    bool
+	closeFn  func() error
+	fds      []int
+	live     bool
+	conn     sonic.Conn
+	inflight bool // a read is deferred to the poller: the object must be in the IO's registry
 }
 
 func runFDs(c *Case) []string {
@@ -83,6 +85,9 @@ func runFDs(c *Case) []string {
 				if !fdValid(fd) {
 					return 0
 				}
+				if o.inflight && !ioc.VerifRegistered(fd) {
+					return 0
+				}
 			}
 		}
 		return 1
@@ -109,7 +114,9 @@ func runFDs(c *Case) []string {
 			}
 			p, _ := ln.Accept()
 			accepted = append(accepted, p)
-			return reg(a[0], nil, []int{conn.RawFd()}, conn.Close)
+			r := reg(a[0], nil, []int{conn.RawFd()}, conn.Close)
+			objs[a[0]].conn = conn
+			return r
 		case "dialudp":
 			addr := busyUDP.LocalAddr().String()
 			if a[1] == "bad" {
@@ -226,6 +233,15 @@ func runFDs(c *Case) []string {
 				_ = s.Handshake("ws://" + ln.Addr().String() + "/x")
 			}
 			return reg(a[0], herr, nil, s.CloseNextLayer)
+		case "aread":
+			// a read deferred to the poller (nothing to read yet)
+			o := objs[a[0]]
+			if o == nil || o.conn == nil || !o.live {
+				return fmt.Sprintf("open=%d intact=%d", delta(), intact(""))
+			}
+			o.conn.AsyncRead(make([]byte, 4), func(error, int) {})
+			o.inflight = true
+			return fmt.Sprintf("open=%d intact=%d", delta(), intact(""))
 		case "close":
 			o := objs[a[0]]
 			if o == nil {
